@@ -22,9 +22,8 @@ RULE = ("two kinds of cases. (1) single: one real oracle.EndBlocker call on the 
 ASSUMPTIONS = [
     "staking state (power-store order, bonded flags, consensus power, total bonded tokens) is read back through the "
     "staking keeper API before the call and handed to the model as input; the staking module itself is not modelled",
-    "the property predicate is only required inside the overflow-free domain (threshold*power in Dec range, |rate| <= "
-    "2^255, created+ExpirationBlocks < 2^64); outside it the model still predicts the implementation's panic / wrap "
-    "and the correspondence is checked",
+    "domain of the property predicate = parameters accepted by Params.Validate (incl. VoteThreshold <= 1 since 662a06f), "
+    "bonded power fitting int64, rates being LegacyDec values; no further restriction since 48f939b / 66a0ce3",
     "voting powers are non-negative and their sum fits int64",
 ]
 TRUSTED = ["coq/Lib/Dec.v (LegacyDec arithmetic on raw integers, validated against cosmossdk.io/math)"]
